@@ -174,7 +174,9 @@ def run(ctx) -> list[Inst]:
         wf = prog.func(cd['writer'])
         rf = prog.func(cd['reader'])
         props = cd['props']
+        ws.opaque = set()
         W = ws.of_func(wf)
+        writer_opaque = bool(ws.opaque)
         # the serialised record is the first parameter after cls / self (not a spelling of the plan)
         rparams = [p for p in rf.params if p not in ('cls', 'self')]
         root = rparams[0] if rparams else cd['root']
@@ -225,6 +227,10 @@ def run(ctx) -> list[Inst]:
                     msg = (f"{rf.short} reads '{path[-1]}' without a presence test but "
                            f"{wl[0].func.short} writes it only conditionally ({wl[0].guard}): loading "
                            f"what was saved raises KeyError when the value is absent")
+                elif writer_opaque:
+                    v = 'unproven'
+                    msg = (f"no write of '{path[-1]}' seen, but part of the record is built by a construct whose keys "
+                           f"are not read (dict(<call>), .copy())")
                 else:
                     v = 'violation'
                     msg = (f"{rf.short} reads '{path[-1]}' without a presence test but the writer never "
